@@ -125,19 +125,24 @@ func simpleMatches(rules []string, requests []string, matchFn ...func(m matcher)
 		return true
 	}
 
+	// filterRules returns either positive matchers only or inverted matchers only.
+	// An inverted list matches exactly the requests that the corresponding
+	// positive list does not match.
+	inverted := len(filtered) > 0 && filtered[0].reverse
 	for _, v := range filtered {
+		positive := matcher{reverse: false, value: v.value}
 		for _, request := range requests {
-			if v.match(request) {
-				return true
+			if positive.match(request) {
+				return !inverted
 			}
 		}
 		for _, match := range matchFn {
-			if match(v) {
-				return true
+			if match(positive) {
+				return !inverted
 			}
 		}
 	}
-	return false
+	return inverted
 }
 
 type matcher struct {
